@@ -12,7 +12,8 @@ import kernel_part as K
 LEAN_MODULES = ['C14', 'C03', 'C09']
 
 MANIFEST = dict(
-    text="Proved in Lean for every machine, raw script and cut position over a hot (never-ending or not) source: once the downstream side is closed - by a terminal the operator emitted or by an "
+    text="Premise for cancellation through the subscription context: every operator subscribes its source with (a context derived from) the context it was subscribed with - C09's regenerated context-provenance table (RoProps/C09). "
+         "Proved in Lean for every machine, raw script and cut position over a hot (never-ending or not) source: once the downstream side is closed - by a terminal the operator emitted or by an "
          "external Unsubscribe - the source has been unsubscribed before the closing call returned and the operator is not invoked again (released, cut); chains are machines (Machine.seq), so the same holds "
          "for early terminators anywhere in a chain. That the model applies to an operator is the regenerated SubscribeShape fact (does not block in Subscribe; no upstream subscription dropped; a teardown is returned), "
          "decided by the kernel on every run (table_ok, waiting_rows). Tie: every catalogue operator and random chains over hot probes with early terminators and external cuts at every position: "
